@@ -272,6 +272,8 @@ theorem represent_scatter (DX : List (List Nat)) (maxD : Nat) (h : ∀ row ∈ D
 /-- a square matrix (every row as long as the matrix has rows) -/
 def Sq (K : List (List Nat)) : Prop := ∀ row ∈ K, row.length = K.length
 
+instance (K : List (List Nat)) : Decidable (Sq K) := by unfold Sq; infer_instance
+
 theorem ncols_sq {K : List (List Nat)} (h : Sq K) : ncols K = K.length := by
   cases K with
   | nil => rfl
@@ -556,5 +558,8 @@ theorem bottlenecksFrom_eq (DX DY : List (List Nat)) (x : Nat) (xs ys : List Nat
     at least as many first images as permutations -/
 def DrawsOk (DX DY : List (List Nat)) (perms : List (List Nat)) (y0s : List Nat) : Prop :=
   perms ≠ [] ∧ perms.length ≤ y0s.length ∧ (∀ p ∈ perms, p ≠ [] ∧ ∀ x ∈ p, x < DX.length) ∧ ∀ y ∈ y0s, y < DY.length
+
+instance (DX DY : List (List Nat)) (perms : List (List Nat)) (y0s : List Nat) : Decidable (DrawsOk DX DY perms y0s) := by
+  unfold DrawsOk; infer_instance
 
 end PersimVerif.SrcBridge.MGH
